@@ -241,6 +241,8 @@ impl SolutionState {
 
     /// Sets the value to solution state using the key type provided.
     pub fn set_value<K: 'static, V: 'static + Sync + Send>(&mut self, value: V) {
+        #[cfg(reinterpretcat_vrp_verif)]
+        verif_hooks::register::<K>();
         self.index.insert(TypeId::of::<K>(), Arc::new(value));
     }
 }
@@ -354,6 +356,8 @@ impl RouteState {
 
     /// Sets the value associated with the tour using `K` type as a key.
     pub fn set_tour_state<K: 'static, V: Send + Sync + 'static>(&mut self, value: V) {
+        #[cfg(reinterpretcat_vrp_verif)]
+        verif_hooks::register::<K>();
         self.index.insert(TypeId::of::<K>(), Arc::new(value));
     }
 
@@ -378,6 +382,8 @@ impl RouteState {
 
     /// Adds values associated with activities.
     pub fn set_activity_states<K: 'static, V: Send + Sync + 'static>(&mut self, values: Vec<V>) {
+        #[cfg(reinterpretcat_vrp_verif)]
+        verif_hooks::register::<K>();
         self.index.insert(TypeId::of::<K>(), Arc::new(values));
     }
 
@@ -513,5 +519,100 @@ impl<'a> MoveContext<'a> {
         activity_ctx: &'a ActivityContext,
     ) -> MoveContext<'a> {
         MoveContext::Activity { solution_ctx, route_ctx, activity_ctx }
+    }
+}
+
+/// Verification-only helpers (guarded by `--cfg reinterpretcat_vrp_verif`): render the otherwise
+/// module-private cached state values as comparable text.
+#[cfg(reinterpretcat_vrp_verif)]
+mod verif_hooks {
+    use super::*;
+    use crate::models::common::{MultiDimLoad, SingleDimLoad};
+    use std::collections::BTreeMap;
+    use std::sync::{Mutex, OnceLock};
+
+    type Index = HashMap<TypeId, Arc<dyn Any + Send + Sync>, BuildHasherDefault<FxHasher>>;
+
+    fn names() -> &'static Mutex<HashMap<TypeId, &'static str>> {
+        static NAMES: OnceLock<Mutex<HashMap<TypeId, &'static str>>> = OnceLock::new();
+        NAMES.get_or_init(|| Mutex::new(HashMap::new()))
+    }
+
+    /// Remembers a readable name of the key type.
+    pub(super) fn register<K: 'static>() {
+        let id = TypeId::of::<K>();
+        let mut names = names().lock().unwrap();
+        names.entry(id).or_insert_with(std::any::type_name::<K>);
+    }
+
+    fn render(value: &(dyn Any + Send + Sync)) -> String {
+        fn single(v: &SingleDimLoad) -> String {
+            format!("{}", v.value)
+        }
+        fn multi(v: &MultiDimLoad) -> String {
+            format!("{:?}", &v.load[..v.size.min(v.load.len())])
+        }
+        if let Some(v) = value.downcast_ref::<Float>() {
+            return format!("f:{v:?}");
+        }
+        if let Some(v) = value.downcast_ref::<Vec<Float>>() {
+            return format!("vf:{v:?}");
+        }
+        if let Some(v) = value.downcast_ref::<usize>() {
+            return format!("u:{v}");
+        }
+        if let Some(v) = value.downcast_ref::<Vec<(usize, usize)>>() {
+            return format!("vuu:{v:?}");
+        }
+        if let Some(v) = value.downcast_ref::<String>() {
+            return format!("s:{v:?}");
+        }
+        if let Some(v) = value.downcast_ref::<HashSet<String>>() {
+            let mut items = v.iter().cloned().collect::<Vec<_>>();
+            items.sort();
+            return format!("hs:{items:?}");
+        }
+        if let Some(v) = value.downcast_ref::<Vec<SingleDimLoad>>() {
+            return format!("vs:[{}]", v.iter().map(single).collect::<Vec<_>>().join(","));
+        }
+        if let Some(v) = value.downcast_ref::<Vec<MultiDimLoad>>() {
+            return format!("vm:[{}]", v.iter().map(multi).collect::<Vec<_>>().join(","));
+        }
+        if let Some(v) = value.downcast_ref::<Vec<Option<SingleDimLoad>>>() {
+            let items = v.iter().map(|v| v.as_ref().map(single).unwrap_or_else(|| "-".to_string()));
+            return format!("vos:[{}]", items.collect::<Vec<_>>().join(","));
+        }
+        if let Some(v) = value.downcast_ref::<Vec<Option<MultiDimLoad>>>() {
+            let items = v.iter().map(|v| v.as_ref().map(multi).unwrap_or_else(|| "-".to_string()));
+            return format!("vom:[{}]", items.collect::<Vec<_>>().join(","));
+        }
+        "<opaque>".to_string()
+    }
+
+    pub(super) fn digest(index: &Index) -> BTreeMap<String, String> {
+        let names = names().lock().unwrap();
+        index
+            .iter()
+            .map(|(id, value)| {
+                let name = names.get(id).map(|name| name.to_string()).unwrap_or_else(|| format!("{id:?}"));
+                (name, render(value.as_ref()))
+            })
+            .collect()
+    }
+}
+
+#[cfg(reinterpretcat_vrp_verif)]
+impl RouteState {
+    /// Renders all cached values (verification hook).
+    pub fn verif_digest(&self) -> std::collections::BTreeMap<String, String> {
+        verif_hooks::digest(&self.index)
+    }
+}
+
+#[cfg(reinterpretcat_vrp_verif)]
+impl SolutionState {
+    /// Renders all cached values (verification hook).
+    pub fn verif_digest(&self) -> std::collections::BTreeMap<String, String> {
+        verif_hooks::digest(&self.index)
     }
 }
